@@ -77,3 +77,12 @@ claim("C18",
       note="Assumed: scale returns a new array, train_test_split returns two non-empty new arrays (n>=2), var>=0, sqrt maps [0,1] to [0,1], corrcoef returns a "
            "scalar for one variable. Unit diagonal is not applicable (depends on the learner). DataFrame branch is bounded only.",
       technique="deductive verification: nested loop invariants (nonlinear count*min<=sum<=count*max), Trace clauses, z3")
+claim("C12",
+      text="Proof for ALL strictly monotone bins (any length>=1, increasing or decreasing) and ALL real x: the recursive closure add_nodes is verified "
+           "against a recursive contract (ghost leafid/final values, decreases clause, every Tree._add_node slot filled once), digitize2tree's prediction equals "
+           "numpy.digitize(x, bins, right=True); the descending case by the value-rewriting loop invariant; right=False refused; tree_leave_index lists exactly "
+           "the leaves in increasing order (loop invariant with a ghost membership predicate). Bounded (compiled code): all monotone bins of length<=4 over a "
+           "float32-exact grid, fitted trees: predict_leaves=apply, tree_node_range = box of routed points.",
+      note="Over the reals (A1): the float32 cast inside scikit-learn is a recorded known finding. Assumed contract of Tree._add_node/predict. predict_leaves, "
+           "tree_node_range, tree_node_parents only bounded.",
+      technique="deductive verification: recursive contract + loop invariants over ghost tree semantics, z3")
